@@ -11,6 +11,18 @@ from gen_trees import rand_tree, tree_json, tree_from_json
 from isla import isla_predicates as P
 from isla.language import StructuralPredicateFormula
 
+from isla.evaluator import evaluate
+EVAL_GRAMMAR = {"<start>": ["<a>"], "<a>": ["x<b>", "y"], "<b>": ["<c>", ""], "<c>": ["<a>"]}
+
+
+def tv_bool(tv):
+    if tv.is_true():
+        return True
+    if tv.is_false():
+        return False
+    raise RuntimeError("UNKNOWN verdict for a structural predicate")
+
+
 PREDS = {p.name: p for p in P.STANDARD_STRUCTURAL_PREDICATES}
 PATH_ONLY = ["before", "after", "same_position", "different_position", "inside", "direct_child"]
 MODEL_FN = {"before": "is_before", "after": "is_after", "same_position": "is_same_position",
@@ -123,6 +135,7 @@ def run(run):
     # ---- 2. tree predicates ----
     ntrees = 150 if thorough else 40
     shards, smeta = [], []
+    routes = {"direct": 0, "formula": 0, "evaluate": 0}
     hist = {"nth": 0, "consecutive": 0, "level": 0, "raise": 0, "true": 0, "false": 0}
     for ti in range(ntrees):
         t = rand_tree(rng, depth=rng.randint(2, 4), max_deg=3)
@@ -134,11 +147,15 @@ def run(run):
         cs, ms = [], []
         for (p, sp) in nodes:
             for (q, sq) in nodes:
-                via_formula = rng.random() < 0.5
+                route = rng.choice(["direct", "formula", "evaluate"])
+                routes[route] += 1
                 def call(name, *sargs):
                     pred = PREDS[name]
-                    if via_formula:
+                    if route == "formula":
                         return impl_outcome(StructuralPredicateFormula(pred, *sargs, sp, sq).evaluate, t)
+                    if route == "evaluate":
+                        # the property's observable: isla.evaluator.evaluate on the instantiated atom
+                        return impl_outcome(lambda: tv_bool(evaluate(StructuralPredicateFormula(pred, *sargs, sp, sq), t, EVAL_GRAMMAR)))
                     return impl_outcome(pred.evaluate, t, *sargs, p, q)
                 nt_many = labels.count(sp.value) >= 2
                 for n in range(0, 5):
@@ -168,6 +185,7 @@ def run(run):
         if ti < 2:
             run.sample({"tree": tree_json(t), "n_cases": len(cs), "first": [ms[1][0], ms[1][1], list(ms[1][2]), list(ms[1][3]), ms[1][4]]})
     run.cov["tree_pred_histogram"] = hist
+    run.cov["call_routes_node_pairs"] = routes
     run.cov["trees"] = len(shards)
     A, B = g_str("<a>"), g_str("<b>")
     ok_def = ("fun c : nat * nat * path * path * res bool => let '(k, n, p, q, r) := c in "
